@@ -215,7 +215,7 @@ func TestVerif_C20_Proxy(t *testing.T) {
 			addrErr = errors.New("store not open")
 			f.plan.addrErr = addrErr
 		}
-		remoteKind := rapid.SampledFrom([]string{"ok", "ok", "unauthorized", "other", "not-leader-text"}).Draw(rt, "remote")
+		remoteKind := rapid.SampledFrom([]string{"ok", "ok", "unauthorized", "other", "not-leader-text", "leadership-lost-text", "leader-not-found-text"}).Draw(rt, "remote")
 		switch remoteKind {
 		case "unauthorized":
 			f.plan.remoteErr = errors.New("unauthorized")
@@ -223,6 +223,10 @@ func TestVerif_C20_Proxy(t *testing.T) {
 			f.plan.remoteErr = errors.New("remote exploded")
 		case "not-leader-text":
 			f.plan.remoteErr = errors.New("not leader")
+		case "leadership-lost-text":
+			f.plan.remoteErr = errors.New("leadership lost while committing log")
+		case "leader-not-found-text":
+			f.plan.remoteErr = errors.New("leader not found")
 		}
 		noForward := rapid.Bool().Draw(rt, "noForward")
 		var creds *clstrPB.Credentials
@@ -423,6 +427,15 @@ func TestVerif_C20_Proxy(t *testing.T) {
 			default:
 				if gotErr == nil || !strings.Contains(gotErr.Error(), f.plan.remoteErr.Error()) || errors.Is(gotErr, ErrUnauthorized) {
 					fail("remote-error-changed", "remote error %v returned as %v", f.plan.remoteErr, gotErr)
+					return
+				}
+				// ErrNotLeader / ErrLeaderNotFound coming out of the proxy mean "this node
+				// is not the leader and nothing was forwarded"; callers (the HTTP handlers)
+				// answer them with a redirect or with nothing at all. An error string that
+				// came back from the node the request WAS forwarded to must never turn into
+				// one of these sentinels.
+				if errors.Is(gotErr, ErrNotLeader) || errors.Is(gotErr, ErrLeaderNotFound) {
+					fail("remote-error-became-local-sentinel", "remote error %q returned as the local sentinel %v (which means: not forwarded)", f.plan.remoteErr, gotErr)
 					return
 				}
 			}
